@@ -17,7 +17,7 @@ def main():
     except ValueError:
         seed = 1
     mod = importlib.import_module("props." + a.prop.lower())
-    ctx = vlib.Ctx(a.prop, a.tier, seed)
+    ctx = vlib.Ctx(a.prop, a.tier, seed, replay=a.replay)
     try:
         rc = mod.run(ctx, replay=a.replay)
     except vlib.Infra as e:
